@@ -375,12 +375,44 @@ def stmts_in(block: List[ast.stmt]) -> List[ast.AST]:
     return out
 
 
+# attribute names that only the Options class declares (set once per run from the repo's source): a read of such an
+# attribute through any local name is a read of the options, whatever the local is called
+DISTINCT_OPTION_ATTRS: Set[str] = set()
+
+
+def set_option_attrs(repo: Repo):
+    DISTINCT_OPTION_ATTRS.clear()
+    try:
+        O = repo.cls("utype.parser.options", "Options")
+    except AnalysisError:
+        return
+    names = set()
+    for st in O.node.body:
+        if isinstance(st, ast.AnnAssign) and isinstance(st.target, ast.Name):
+            names.add(st.target.id)
+        elif isinstance(st, ast.Assign):
+            names |= {t.id for t in st.targets if isinstance(t, ast.Name)}
+    names = {n for n in names if not n.startswith("_") and n.upper() != n}
+    other = set()
+    for m in repo.modules.values():
+        for c in m.classes.values():
+            if c.name in ("Options", "RuntimeContext"):
+                continue
+            for st in ast.walk(c.node):
+                if isinstance(st, ast.Attribute) and isinstance(st.value, ast.Name) and st.value.id == "self":
+                    other.add(st.attr)
+    DISTINCT_OPTION_ATTRS.update(names - other)
+
+
 def opt_attr(e) -> Optional[str]:
     """`options.X` / `context.options.X` / `self.options.X` / `transformer.options.X` -> 'X'"""
     if isinstance(e, ast.Attribute):
         v = e.value
         if isinstance(v, ast.Name) and v.id in ("options", "opts", "option", "opt", "_options"):
             # the repo's convention for a hoisted `<ctx>.options`
+            return e.attr
+        if isinstance(v, ast.Name) and e.attr in DISTINCT_OPTION_ATTRS and v.id not in ("self", "cls", "field", "mcs"):
+            # a local alias of the options under any name
             return e.attr
         if isinstance(v, ast.Attribute) and v.attr in ("options", "__options__"):
             return e.attr
